@@ -193,6 +193,7 @@ class VTyped(VBase):
     e: Color = Color.RED
     kid: VLeaf | None = None
     kids: tuple[VLeaf, ...] = ()
+    nc: int = field(default=0, compare=False)
     ni: int = field(default=3, init=False)
 
 
@@ -504,6 +505,25 @@ class VPascal(VBase):
     Zed: int = 0
 
 
+@dataclass(frozen=True, slots=True)
+class VSlot(VBase):
+    """A slotted node class (dataclass re-creates the class object for slots=True)."""
+
+    v: int = 0
+    kid: VBase | None = None
+
+
+@dataclass(frozen=True)
+class VBin(VBase):
+    """A bytes property (needs the MessagePack dialect) and a self-typed child, so that
+    untagged input can be read back."""
+
+    blob: bytes = b""
+    kid: "VBin | None" = None
+
+
+CLASSES["VSlot"] = VSlot
+CLASSES["VBin"] = VBin
 CLASSES["VValidated"] = VValidated
 CLASSES["VPascal"] = VPascal
 
